@@ -40,7 +40,67 @@ UNITS = [
     U("c10_linear_nearestR", "h_nearestR", "nn_nearestR", "NearestNeighborsLinear::nearestR", [dict(name="strict_radius", where="body:nearestR", rx=r"<= radius", repl="< radius")]),
     U("c10_linear_remove", "h_remove", "nn_remove", "NearestNeighborsLinear::remove", [dict(name="skips_first_slot", where="body:remove", rx=r"i >= 0;", repl="i > 0;")]),
 ]
-ASSUMPTIONS = ["elements are addressed by slot; the distance function returns a fixed non-NaN value per element; std::sort is an assumed contract (result ordered by the comparator)", "<= 64 stored elements"]
+# ---------------------------------------------------------------- GNAT node primitives and the radius-query pruning step
+GN = "src/ompl/datastructures/NearestNeighborsGNAT.h"
+PFLAGS = ["--bounds-check", "--pointer-check", "--signed-overflow-check", "--conversion-check", "--div-by-zero-check"]
+GR = [
+    (r"#ifndef GNAT_SAMPLER|#else.*?#endif|#endif", "", 0, __import__("re").S),
+    (r"nbh\.size\(\)", "NBH_SIZE()", 0), (r"nbh\.top\(\)\.first", "NBH_TOP_FIRST()", 0), (r"nbh\.pop\(\);", "NBH_POP();", 0), (r"nbh\.emplace\(dist, &data\);", "NBH_EMPLACE(dist, data);", 0),
+    (r"std::numeric_limits<double>::epsilon\(\)", "DBL_EPSILON", 0), (r"std::size_t", "size_t", 0),
+    # nearestR, children part
+    (r"double dist = r;", "D dist = r;", 0),
+    (r"for \(const auto &d : data_\)\s*if \(!gnat\.isRemoved\(d\)\)\s*insertNeighborR\(nbh, r, d, gnat\.distFun_\(data, d\)\);", ";", 0),
+    (r"!children_\.empty\(\)", "SZ != 0", 0), (r"Node \*child;", "unsigned child;", 0),
+    (r"size_t sz = children_\.size\(\), offset = gnat\.offset_\+\+;", "size_t sz = SZ, offset = offset_++;", 0),
+    (r"std::vector<double> distToPivot\(sz\);", "D distToPivot[MAXCH];", 0), (r"std::vector<int> permutation\(sz\);", "int permutation[MAXCH];", 0),
+    (r"permutation\[i\] = \(i \+ offset\) % sz;", "permutation[i] = (int)((i + offset) % sz);", 0),
+    (r"child = children_\[permutation\[i\]\];", "child = (unsigned)permutation[i];", 0), (r"child = children_\[p\];", "child = (unsigned)p;", 0),
+    (r"gnat\.distFun_\(data, child->pivot_\)", "distToPivotIdx(child)", 0),
+    (r"insertNeighborR\(nbh, r, child->pivot_, distToPivot\[permutation\[i\]\]\);", "INSERT_R_PIVOT(child, distToPivot[permutation[i]]);", 0),
+    (r"child->maxRange_\[", "MAXR[child][", 0), (r"child->minRange_\[", "MINR[child][", 0), (r"child->maxRadius_", "MAXRAD[child]", 0), (r"child->minRadius_", "MINRAD[child]", 0),
+    (r"for \(auto p : permutation\)\s*if \(p >= 0\)\s*\{", "for (size_t pi_ = 0; pi_ < sz; ++pi_) if (permutation[pi_] >= 0) { int p = permutation[pi_];", 0),
+    (r"nodeQueue\.emplace\(child, distToPivot\[p\]\);", "NODEQ_EMPLACE(child, distToPivot[p]);", 0),
+]
+GSRC = [
+    dict(name="updateRadius", file=GN, sig=r"void updateRadius\(double dist\)", rules=GR, loops={}),
+    dict(name="updateRange", file=GN, sig=r"void updateRange\(unsigned int i, double dist\)", rules=GR, loops={}),
+    dict(name="insertNeighborK", file=GN, sig=r"bool insertNeighborK\(NearQueue &nbh, std::size_t k, const _T &data, const _T &key, double dist\) const", rules=GR, loops={}),
+    dict(name="insertNeighborR", file=GN, sig=r"void insertNeighborR\(NearQueue &nbh, double r, const _T &data, double dist\) const", rules=GR, loops={}),
+    dict(name="nearestR_prune", file=GN, sig=r"void nearestR\(const GNAT &gnat, const _T &data, double r, NearQueue &nbh, NodeQueue &nodeQueue\) const", rules=GR, loops={"allow_uncontracted": True}),
+]
+
+
+def GU(name, entry, fn, can=(), level="proof", bound="", unwind=None, backend="cadical"):
+    d = dict(name=name, template="C10/gnat_node.c", mode="plain", entry=entry, sources=GSRC, flags=PFLAGS, level=level, bound=bound, functions=[fn], canaries=list(can), backend=backend, timeout=900)
+    if unwind:
+        d["unwind"] = unwind
+    return d
+
+
+UNITS += [
+    GU("c10_gnat_envelopes", "h_envelopes", "NearestNeighborsGNAT::Node::updateRadius / updateRange", [dict(name="range_never_lowered", where="body:updateRange", rx=r"if \(minRange_\[i\] > dist\)\s*minRange_\[i\] = dist;", repl="")]),
+    GU("c10_gnat_insertNeighborK", "h_insertK", "NearestNeighborsGNAT::Node::insertNeighborK", [dict(name="ties_replace", where="body:insertNeighborK", rx=r"dist < NBH_TOP_FIRST\(\)", repl="dist <= NBH_TOP_FIRST()")]),
+    GU("c10_gnat_insertNeighborR", "h_insertR", "NearestNeighborsGNAT::Node::insertNeighborR", [dict(name="strict_radius", where="body:insertNeighborR", rx=r"dist <= r", repl="dist < r")]),
+    GU("c10_gnat_nearestR_pruning", "h_nearestR_prune", "NearestNeighborsGNAT::Node::nearestR (sibling pruning and radius test of one node)", level="bounded", bound="<= 8 children per node, integer distances below 2^40", unwind=10,
+       can=[dict(name="prune_on_equality", where="body:nearestR_prune", rx=r"- dist > MAXR\[child\]", repl="- dist >= MAXR[child]"),
+            dict(name="min_max_swapped", where="body:nearestR_prune", rx=r"\+ dist < MINR\[child\]", repl="+ dist < MAXR[child]")]),
+]
+
+ASSUMPTIONS = ["GNAT pruning: distances are exact integers standing for reals (linear rule: valid over the reals iff over the integers; rounding not modelled); the range/radius envelopes contain the true pivot-to-element distances (the structure invariant maintained by add/split, assumed here); the metric satisfies the triangle inequality",
+               "elements are addressed by slot; the distance function returns a fixed non-NaN value per element; std::sort is an assumed contract (result ordered by the comparator)", "<= 64 stored elements"]
 TRUSTED = ["extraction rewrite table of units/C10.py", "stubs in units/C10/linear.c", "CBMC 6.11 DFCC + cadical"]
-NOT_COVERED = ["NearestNeighborsGNAT / GNATNoThreadSafety (recursive tree, pivots, range envelopes, rebuilds, removal cache) and NearestNeighborsSqrtApprox: NOT checked by this family in this build",
+NOT_COVERED = ["NearestNeighborsGNAT as a whole structure (recursion over the tree, Node::add/split maintaining the envelopes, nearestK pruning with the moving k-th best, rebuilds, removal cache), GNATNoThreadSafety, NearestNeighborsSqrtApprox: only the node primitives and the radius pruning step of one node are checked",
                "nearestK of the linear structure (std::partial_sort), GreedyKCenters"]
+
+MISC_CPPS = []
+NATIVE = [
+    dict(name="c10_native_search", driver="native/misc_native.cpp", link_ompl=True, unit_cpps=MISC_CPPS, args=lambda tier, seed: ["c10", seed, 1500 if tier == "quick" else 60000], timeout=900),
+]
+
+
+def replay(ur, scratch, seed):
+    """Search the real classes for a failing input (native/misc_native.cpp, mode c10)."""
+    from vf import native as N, cbmc as C
+    exe = N.build_driver("native/misc_native.cpp", scratch, link_ompl=True, unit_cpps=MISC_CPPS)
+    r = C.run_cmd([exe, "c10", str(seed), "15000"], 600, env=N.run_env())
+    return dict(found=(r["rc"] == 1), driver="native/misc_native.cpp", args=["c10", seed, 15000], link_ompl=True, unit_cpps=MISC_CPPS, output=r["out"][-2500:])
